@@ -100,7 +100,7 @@ class Item:
 
     def coro(self, engine, s, sched, shared):
         w = world_mod.World(s, self.wseed, self.faults, sched)
-        w.shared_exc = shared
+        w.shared_exc = shared if shared is not None else world_mod.make_shared_exception()
         root = w.root_object(self.root_t) if (self.use_root and self.root_t) else None
         return engine.execute(self.text, operation_name=self.op_name, context={"world": w, "tag": self.wseed},
                               variables=self.variables, initial_value=root)
@@ -127,12 +127,12 @@ def gen_batch(rng, s):
             items.append(Item(broken_variants(rng, base.text), None, {}, rng.randrange(10 ** 9), {}, False, None, "broken"))
             continue
         faults = {}
+        w0, _ = X.make_worlds(s, req)
+        try:
+            X.run_reference(s, req, w0)
+        except refexec.RefBug:
+            pass
         if rng.random() < 0.45:
-            w0, _ = X.make_worlds(s, req)
-            try:
-                X.run_reference(s, req, w0)
-            except refexec.RefBug:
-                pass
             if w0.insts:
                 for key in rng.sample(sorted(w0.insts), min(len(w0.insts), rng.randint(1, 2))):
                     T, fname, v = w0.insts[key]
@@ -146,6 +146,12 @@ def gen_batch(rng, s):
             variables = dict(variables, **{req.op.vardefs[0][0]: {"definitely": ["wrong"]}})
             kind = "bad-variables"
         items.append(Item(req.text, op_name, variables, req.wseed, faults, req.use_root, s.roots()[req.op.kind], kind))
+        items[-1].insts = sorted(w0.insts)
+    execs = [it for it in items if it.kind == "exec" and getattr(it, "insts", None)]
+    if len(execs) >= 2 and rng.random() < 0.12:
+        # the SAME library-error instance raised inside two different requests (known finding)
+        for it in rng.sample(execs, 2):
+            it.faults = {rng.choice(it.insts): ("raise_shared",)}
     return items
 
 
@@ -175,7 +181,8 @@ async def run_case(ctx, rng, index):
 
             async def run_once(choose):
                 def make(sched):
-                    return [it.coro(b.engine, s, PrefixedSched(sched, "q%d|" % i), None) for i, it in enumerate(items)]
+                    shared = world_mod.make_shared_exception()   # one instance for the whole concurrent batch
+                    return [it.coro(b.engine, s, PrefixedSched(sched, "q%d|" % i), shared) for i, it in enumerate(items)]
                 results, sched, stray, stuck = await S.run_scheduled(make, choose, step_bound=20000)
                 return (results, stray, stuck), sched
 
@@ -193,8 +200,12 @@ async def run_case(ctx, rng, index):
                     if isinstance(r, BaseException):
                         ctx.violation("execute-raised", "request %d: %r" % (i, r), c2)
                     elif norm(r) != so_:
+                        shared_items = [it for it in items if any(f[0] == "raise_shared" for f in it.faults.values())]
+                        mech = None
+                        if len(shared_items) >= 2 and items[i] in shared_items and norm(r)[0] == so_[0]:
+                            mech = "same-exception-instance-raised-in-two-requests"   # data equal, only the shared error differs
                         ctx.violation("concurrent-differs-from-solo", "request %d (%s) schedule=%s concurrent=%s solo=%s" % (
-                            i, items[i].kind, c2["schedule"][:10], str(norm(r))[:300], str(so_)[:300]), c2)
+                            i, items[i].kind, c2["schedule"][:10], str(norm(r))[:300], str(so_)[:300]), c2, mech)
                 for p in sched.check_log():
                     ctx.violation("gate-history", p, c2)
                 if stray:
